@@ -39,10 +39,40 @@ func negate(s string) string {
 	return "!(" + s + ")"
 }
 
+// gaHelper, when set by a rule, resolves a call to the declaration of a helper of the package introduced since
+// the reference was written; `v = helper(v, a, b)` then stands for the helper's statements with its parameters
+// renamed to v, a, b (the helper's final `return <first parameter>` is the assignment back to v).
+var gaHelper func(call *ast.CallExpr) *ast.FuncDecl
+
 func guardedAssigns(stmts []ast.Stmt, conds []string, ren func(string) string, out *[]gaRow) {
 	for _, s := range stmts {
 		switch x := s.(type) {
 		case *ast.AssignStmt:
+			if gaHelper != nil && len(x.Lhs) == 1 && len(x.Rhs) == 1 {
+				if call, ok := x.Rhs[0].(*ast.CallExpr); ok && len(call.Args) >= 1 && exprStr(call.Args[0]) == exprStr(x.Lhs[0]) {
+					if hd := gaHelper(call); hd != nil && hd.Type.Params != nil {
+						var pairs []string
+						i := 0
+						for _, f := range hd.Type.Params.List {
+							for _, nm := range f.Names {
+								if i < len(call.Args) {
+									pairs = append(pairs, nm.Name, exprStr(call.Args[i]))
+								}
+								i++
+							}
+						}
+						inner := renamer(pairs...)
+						var rows []gaRow
+						guardedAssigns(hd.Body.List, conds, func(t string) string { return ren(inner(t)) }, &rows)
+						for _, row := range rows {
+							if row.lhs != "return" {
+								*out = append(*out, row)
+							}
+						}
+						continue
+					}
+				}
+			}
 			for i, l := range x.Lhs {
 				rhs := ""
 				if len(x.Rhs) == len(x.Lhs) {
@@ -142,6 +172,16 @@ func runC13R2(c *Ctx, r *Rep) {
 		return
 	}
 	r.analysed("(*py.Slice).GetIndices")
+	pyp := c.MustPkg("py")
+	gaHelper = func(call *ast.CallExpr) *ast.FuncDecl {
+		if fn := Callee(pyp.TypesInfo, call); fn != nil && fn.Pkg() == pyp.Types && isNewFunc(FuncID(fn)) {
+			if d := c.Decl(fn); d != nil && d.Body != nil {
+				return d
+			}
+		}
+		return nil
+	}
+	defer func() { gaHelper = nil }()
 	recv := "r"
 	if fd.Recv != nil && len(fd.Recv.List) == 1 && len(fd.Recv.List[0].Names) == 1 {
 		recv = fd.Recv.List[0].Names[0].Name
